@@ -219,6 +219,46 @@ fn eval(ctx: &Ctx, case: &Case) -> Verdict {
         );
     }
 
+    // (i-b) the same chain as a real shell pipeline (`sfs view A -O npy in | sfs view B -O npy | ...`);
+    // for one case in four the bytes between the stages are dribbled: the first 1..5 bytes, a
+    // pause, then the rest (a slow producer), which must not matter either
+    if !steps.is_empty() {
+        let bin = ctx.sfs_bin.to_string_lossy().into_owned();
+        let k = case.spec.values.len() + steps.len();
+        let dribble = if k % 4 == 0 { format!(" | {{ head -c {}; sleep 0.02; cat; }}", 1 + k % 5) } else { String::new() };
+        let mut script = String::from("set -o pipefail; ");
+        for (i, st) in steps.iter().enumerate() {
+            let quoted: Vec<String> = st.args().iter().map(|a| format!("'{a}'")).collect();
+            if i > 0 {
+                script.push_str(&dribble);
+                script.push_str(" | ");
+            }
+            script.push_str(&format!("\"{bin}\" view {}", quoted.join(" ")));
+            if i + 1 < steps.len() {
+                script.push_str(" -O npy");
+            } else {
+                for a in &out_args {
+                    script.push_str(&format!(" '{a}'"));
+                }
+            }
+            if i == 0 {
+                script.push_str(" in.sfs");
+            }
+        }
+        if steps.len() == 1 {
+            // a single step: feed it from `cat` through the (possibly dribbling) pipe instead
+            script = format!("set -o pipefail; cat in.sfs{dribble} | \"{bin}\" view {} {}", steps[0].args().iter().map(|a| format!("'{a}'")).collect::<Vec<_>>().join(" "), out_args.iter().map(|a| format!("'{a}'")).collect::<Vec<_>>().join(" "));
+        }
+        let r = cli::run_bin(ctx, std::path::Path::new("/bin/bash"), &["-c", &script], Input::Null, &dir, &[("SFS_ALLOW_STDIN", "1")]);
+        ensure!(
+            r.ok() && r.stdout == run_c.stdout,
+            "{what} differs from the shell pipeline `{}`:\n combined: {:?}\n pipeline: {}",
+            script.replace(&bin, "sfs"),
+            cli::cut(&String::from_utf8_lossy(&run_c.stdout), 200),
+            r.describe()
+        );
+    }
+
     // (ii) absolute, against the harness's model in the documented order
     let (shape, values) = parse_output(&run_c.stdout, case.precision.is_none()).map_err(|e| Failure::new(format!("{what}: unreadable output: {e}")))?;
     ensure!(shape == model.shape, "{what}: output shape {shape:?}, model {:?}", model.shape);
@@ -279,7 +319,7 @@ fn eval(ctx: &Ctx, case: &Case) -> Verdict {
 pub fn check(ctx: &Ctx) -> Check {
     let parts: Vec<Box<dyn Part>> = vec![Box::new(RandomPart {
         name: "option-subsets",
-        rule: "spectra with 1..4 axes (one in twelve with 4 097 .. 8 200 entries) (integer / real / sparse values, 4% with zero total) x all 2^4 option subsets x an admissible marginalization set (as -m or -M, any naming order) and projection target (as --project-shape or -p, in the post-marginalization axes) x final output {text at precision 0..17, npy}: (i) the same options applied one per `view` invocation in the documented order, stages connected losslessly with -O npy, must give byte-identical final output; (ii) every cell within tolerance of the harness's model applied in the order marginalize > project > mask > normalize; (iii) mask alone zeroes exactly the first and last cell; (iv) normalize alone sums to one and preserves ratios; (v) no options reproduces the input to the printed precision; non-trivial = >=2 options including a non-commuting pair (mask+normalize, mask+project, marginalize+project with unequal axes); the 16 subsets are listed as labels",
+        rule: "spectra with 1..4 axes (one in twelve with 4 097 .. 8 200 entries) (integer / real / sparse values, 4% with zero total) x all 2^4 option subsets x an admissible marginalization set (as -m or -M, any naming order) and projection target (as --project-shape or -p, in the post-marginalization axes) x final output {text at precision 0..17, npy}: (i) the same options applied one per `view` invocation in the documented order, stages connected losslessly with -O npy (once through files, once as a real shell pipeline whose inter-stage bytes are, for one case in four, dribbled: 1..5 bytes, a pause, the rest), must give byte-identical final output; (ii) every cell within tolerance of the harness's model applied in the order marginalize > project > mask > normalize; (iii) mask alone zeroes exactly the first and last cell; (iv) normalize alone sums to one and preserves ratios; (v) no options reproduces the input to the printed precision; non-trivial = >=2 options including a non-commuting pair (mask+normalize, mask+project, marginalize+project with unequal axes); the 16 subsets are listed as labels",
         cases: ctx.tier.pick(3000, 100_000),
         strategy: Box::new(|| strategy().boxed()),
         eval: Box::new(eval),
